@@ -367,8 +367,14 @@ def _closures_and_globals(model, an, rep):
     return nclos
 
 
-def _operands(model, an, rep):
+def _operands(model, an, rep, sites=()):
     R5 = "C15-R5"
+    # private attributes that are storage of a memoisation site (lazily
+    # filled caches): stores into them are the memo itself (R1-R3); every
+    # other attribute, private or not, holds data of the object
+    cache_attrs = set()
+    for st in sites:
+        cache_attrs |= set(st.cache_attrs) | set(st.stored_attrs)
     n = 0
     used_exc = set()
     for fn in model.all_functions():
@@ -390,7 +396,7 @@ def _operands(model, an, rep):
                                          []).append(e)
                 elif r.startswith("self.") and fn.name not in CTORS and \
                         e.kind != "attr-store" and \
-                        not r[5:].startswith("_"):
+                        r[5:].split(".")[0].split("[")[0] not in cache_attrs:
                     per_param.setdefault("self." + r[5:], []).append(e)
         params = [p for p in s.params if p not in ("self", "cls")]
         for p in params:
@@ -487,7 +493,7 @@ def run(model: Model, rep, tier: str) -> None:
     sites = _memo_rules(model, an, rep)
     _ctor_order(model, an, rep, sites)
     _closures_and_globals(model, an, rep)
-    n = _operands(model, an, rep)
+    n = _operands(model, an, rep, sites)
     if n < 500:
         raise AnalysisError(f"only {n} functions analysed for effects "
                             f"(543 confirmed by hand)")
@@ -497,7 +503,30 @@ def run(model: Model, rep, tier: str) -> None:
 
 
 _U = "skfem/utils.py"
+_CB = "skfem/assembly/basis/composite_basis.py"
 MUTANTS = [
+    ("composite basis shifts its factors' DOF tables in place",
+     (_CB, "            dofs = []\n            offset = 0\n            for "
+      "basis in self.bases:\n                dofs.append(basis.element_dofs "
+      "+ offset)\n                if not self.equal_dofnum:\n"
+      "                    offset += basis.N\n",
+      "            dofs = [basis.element_dofs for basis in self.bases]\n"
+      "            if not self.equal_dofnum:\n                offsets = "
+      "np.cumsum([0] + [basis.N for basis in self.bases])\n"
+      "                for k in range(1, len(dofs)):\n"
+      "                    dofs[k] += offsets[k]\n"), "C15-R5"),
+    ("with_boundaries writes new names into the operand's table",
+     ("skfem/mesh/mesh.py",
+      "        return replace(\n            self,\n            _boundaries={"
+      "\n                **({} if self._boundaries is None else "
+      "self._boundaries),\n                **{name: self.facets_satisfying("
+      "test_or_set, boundaries_only)\n                   if callable("
+      "test_or_set) else test_or_set\n                   for name, "
+      "test_or_set in boundaries.items()}\n            },\n        )",
+      "        tagged = {} if self._boundaries is None else "
+      "self._boundaries\n        for name, test_or_set in "
+      "boundaries.items():\n            tagged[name] = test_or_set\n"
+      "        return replace(self, _boundaries=tagged)"), "C15-R5"),
     ("line quadrature rule memoised with lru_cache",
      [("skfem/quadrature.py", "from typing import Tuple, Type, Union\n",
        "from functools import lru_cache\nfrom typing import Tuple, Type, "
@@ -592,6 +621,22 @@ MUTANTS = [
       "Optional[ndarray]:\n"), "C15-R5"),
 ]
 TWINS = [
+    ("composite basis shifts copies of its factors' DOF tables",
+     (_CB, "            dofs = []\n            offset = 0\n            for "
+      "basis in self.bases:\n                dofs.append(basis.element_dofs "
+      "+ offset)\n                if not self.equal_dofnum:\n"
+      "                    offset += basis.N\n",
+      "            dofs = [basis.element_dofs.copy() for basis in "
+      "self.bases]\n            if not self.equal_dofnum:\n"
+      "                offsets = np.cumsum([0] + [basis.N for basis in "
+      "self.bases])\n                for k in range(1, len(dofs)):\n"
+      "                    dofs[k] += offsets[k]\n")),
+    ("with_boundaries builds the merged table in a copy",
+     ("skfem/mesh/mesh.py",
+      "                **({} if self._boundaries is None else "
+      "self._boundaries),",
+      "                **({} if self._boundaries is None else "
+      "dict(self._boundaries)),")),
     ("CG solver accumulates into its own copy of the right-hand side",
      [("skfem/utils.py", "            x = x + alpha * p\n",
        "            x += alpha * p\n"),
